@@ -146,6 +146,12 @@ class ExprMixin:
         if isinstance(a, (VRef, VDict, VList)) and isinstance(b, (VRef, VDict, VList)):
             if isinstance(a, VList) and isinstance(b, VList):
                 # value equality of lists: same length and same elements
+                if getattr(a, 'pending', False) or getattr(b, 'pending', False):
+                    # comparison with an empty list literal
+                    x, y = (b, a) if getattr(a, 'pending', False) else (a, b)
+                    if getattr(x, 'pending', False):
+                        return z3.BoolVal(True)
+                    return z3.And(self.list_len(st, x) == 0, self.list_len(st, y) == 0)
                 if a.e != b.e:
                     return z3.BoolVal(False)
                 la, lb = self.list_len(st, a), self.list_len(st, b)
@@ -157,7 +163,9 @@ class ExprMixin:
         if isinstance(a, VAny) and isinstance(b, VAny):
             return a.t == b.t
         if isinstance(a, VFunc) and isinstance(b, VFunc):
-            return z3.BoolVal(a is b)
+            if a is b:
+                return z3.BoolVal(True)
+            return a.t == b.t
         # values of different kinds never compare equal in the subset we support
         kinds = {type(a).__name__, type(b).__name__}
         if kinds & {'VAny'}:
@@ -173,8 +181,8 @@ class ExprMixin:
             return self.eq(st, a, b, node)
         if isinstance(a, (VInt, VBool)) and isinstance(b, (VInt, VBool)):
             return self.eq(st, a, b, node)   # enum members / small ints / True False
-        if isinstance(a, (VRef, VDict, VList)) and isinstance(b, (VRef, VDict, VList)):
-            return a.t == b.t
+        if isinstance(a, (VRef, VDict, VList, VFunc)) and isinstance(b, (VRef, VDict, VList, VFunc)):
+            return z3.BoolVal(True) if a is b else a.t == b.t
         return self.eq(st, a, b, node)
 
     # ------------------------------------------------------------- sequences
@@ -372,8 +380,32 @@ class ExprMixin:
         # f-strings: an opaque string (content irrelevant to every contract; A-STR)
         return [(st, VStr(fresh(STR, 'fstr')))]
 
+    def register_callable(self, st, f):
+        """give a callable value created on this path an identity (a fresh reference) so that it can be
+        stored in the heap and recognised when it is read back and called"""
+        r = st.alloc
+        st.alloc = st.alloc + 1
+        f.t = r
+        reg = dict(st.ghost.get('$callables', {}))
+        reg[z3.simplify(r).get_id()] = f
+        st.ghost['$callables'] = reg
+        st.frames[st.cur]['$captured'] = True
+        return f
+
     def e_Lambda(self, st, e):
-        return [(st, VFunc('closure', node=e, frame=st.cur, info=st.info(), defaults=None))]
+        # default values of lambda parameters are evaluated at definition time
+        defaults = {}
+        a = e.args
+        names = [x.arg for x in a.posonlyargs + a.args]
+        cur = st
+        for name, d in list(zip(names[len(names) - len(a.defaults):], a.defaults)) + \
+                [(k.arg, d) for k, d in zip(a.kwonlyargs, a.kw_defaults) if d is not None]:
+            res = self.eval(cur, d)
+            if len(res) != 1 or res[0][0].exc is not None:
+                self.unsupported(e, 'lambda default forks')
+            cur, defaults[name] = res[0]
+        f = VFunc('closure', node=e, frame=cur.cur, info=cur.info(), defaults=defaults)
+        return [(cur, self.register_callable(cur, f))]
 
     def e_IfExp(self, st, e):
         if self.spec_mode:
@@ -449,6 +481,8 @@ class ExprMixin:
             for i, op in enumerate(e.ops):
                 if isinstance(op, (ast.Lt, ast.LtE, ast.Gt, ast.GtE)):
                     need.update((i, i + 1))
+                elif isinstance(op, (ast.In, ast.NotIn)):
+                    need.add(i + 1)      # `x in None` raises TypeError
             cands = [(s, list(vals))]
             for i in sorted(need):
                 if not isinstance(vals[i], VOpt):
@@ -636,7 +670,7 @@ class ExprMixin:
                 res.append((ex, None))
             return res
         if isinstance(op, ast.BitAnd):
-            return [(st, VInt(self.bitand(st, x, y, node)))]
+            return [(st, VInt(self.bitand_val(st, a, b, node)))]
         if isinstance(op, ast.BitOr):
             return [(st, VInt(self.bitor(st, x, y, node)))]
         if isinstance(op, ast.Pow):
@@ -694,6 +728,16 @@ class ExprMixin:
             facts.append(z3.Implies(e > 40, f(e) > 2 ** 40))
             st.fact(*facts)
         return f(e)
+
+    def bitand_val(self, st, a, b, node):
+        """x & (1 << k): the k-th bit of x, in place"""
+        for u, v in ((a, b), (b, a)):
+            k = getattr(v, 'single_bit', None)
+            if k is not None:
+                x = self.as_int(u, node)
+                p = self.pow2(st, k) if not is_const_int(k) else z3.IntVal(2 ** k.as_long())
+                return z3.simplify(((x / p) % 2) * p)
+        return self.bitand(st, self.as_int(a, node), self.as_int(b, node), node)
 
     def bitand(self, st, x, y, node):
         # x & mask with constant mask of the form 2^k-1 (low bits), or high-bit masks of a byte/known-range value
